@@ -347,6 +347,118 @@ def _emit_type(asm, out, kind, kv, maps, drops, adds=()):
 
 
 
+def filter_match_arms(body, enum, keep):
+    """Drop, from every `match` in `body`, the arms whose pattern names a variant `<enum>::V` with V not in `keep`.
+    Arms are split at statement level of the match block: `pat => { .. }` ends at the matching brace (plus an optional
+    comma), `pat => expr,` at the next comma outside brackets. Returns (new_body, names_of_dropped_variants, n_dropped)."""
+    mask = rsx.code_mask(body)
+    out = []
+    i = 0
+    dropped = []
+    ndrop = 0
+    n = len(body)
+
+    def match_close(k):
+        depth = 0
+        while k < n:
+            if mask[k]:
+                if body[k] in '([{':
+                    depth += 1
+                elif body[k] in ')]}':
+                    depth -= 1
+                    if depth == 0:
+                        return k
+            k += 1
+        return -1
+
+    pos = 0
+    res = body
+    # process matches from the last to the first so that offsets stay valid
+    starts = [m.start() for m in re.finditer(r'\bmatch\b', body) if mask[m.start()]]
+    for ms in reversed(starts):
+        mask = rsx.code_mask(res)
+        n = len(res)
+        body = res
+        # the block of the match: the first `{` at bracket depth 0 after the scrutinee
+        k = ms + 5
+        depth = 0
+        while k < n:
+            if mask[k]:
+                if body[k] in '([':
+                    depth += 1
+                elif body[k] in ')]':
+                    depth -= 1
+                elif body[k] == '{' and depth == 0:
+                    break
+            k += 1
+        if k >= n:
+            continue
+        end = match_close(k)
+        if end < 0:
+            continue
+        inner_start = k + 1
+        arms = []
+        a = inner_start
+        while a < end:
+            # skip whitespace
+            while a < end and body[a].isspace():
+                a += 1
+            if a >= end:
+                break
+            # find `=>` at depth 0
+            j = a
+            depth = 0
+            while j < end:
+                if mask[j]:
+                    if body[j] in '([{':
+                        depth += 1
+                    elif body[j] in ')]}':
+                        depth -= 1
+                    elif depth == 0 and body.startswith('=>', j):
+                        break
+                j += 1
+            if j >= end:
+                break
+            e = j + 2
+            while e < end and body[e].isspace():
+                e += 1
+            if e < end and body[e] == '{':
+                ce = match_close(e)
+                e = ce + 1
+                t = e
+                while t < end and body[t].isspace():
+                    t += 1
+                if t < end and body[t] == ',':
+                    e = t + 1
+            else:
+                depth = 0
+                while e < end:
+                    if mask[e]:
+                        if body[e] in '([{':
+                            depth += 1
+                        elif body[e] in ')]}':
+                            depth -= 1
+                        elif body[e] == ',' and depth == 0:
+                            e += 1
+                            break
+                    e += 1
+            arms.append((a, e, body[a:j]))
+            a = e
+        pieces = []
+        last = inner_start
+        for (a0, e0, pat) in arms:
+            vs = re.findall(r'\b%s::(\w+)' % re.escape(enum), pat)
+            bad = [v for v in vs if v not in keep]
+            if bad:
+                pieces.append(body[last:a0])
+                last = e0
+                dropped += bad
+                ndrop += 1
+        pieces.append(body[last:])
+        res = body[:inner_start] + ''.join(pieces)[0:] if False else body[:inner_start] + ''.join(pieces)
+    return res, sorted(set(dropped)), ndrop
+
+
 MANAGED_PAT = re.compile(r'\bGc\s*<|\bValue\b|\bCallFrame\b|\bObjUpvalueState\b')
 
 
@@ -716,6 +828,14 @@ def _emit_fn(asm, out, unit, kv, block, default_props):
             body = body[:cut] + tail_t + '\n    }'
             asm.dropped.append('%s: only the statements before `%s` are verified; the remaining %d lines of the body are replaced by the stub call `%s`'
                                % (fname, anchor_t, n_dropped, tail_t))
+            continue
+        if t.startswith('keep_arms '):
+            # `keep_arms Value Boolean,ObjRange,None`: match arms whose pattern names another variant of the enum are dropped
+            # (the enum stand-in collapses those variants into one, which then takes the wildcard arm). Stated as a drop.
+            _, en_, kp_ = t.split()[:3]
+            body, dv_, nd_ = filter_match_arms(body, en_, kp_.split(','))
+            asm.dropped.append('%s: %d match arm(s) over variants of %s outside the kept set dropped (%s); such values take the wildcard arm'
+                               % (fname, nd_, en_, ', '.join(dv_)))
             continue
         if t.startswith('rewrite '):
             for rule in t.split()[1:]:
